@@ -28,6 +28,7 @@ type UserSpec struct {
 
 // Step is one plan step: sleep Dt, then Op.
 type Step struct {
+	Pause *PauseSpec `json:"pause,omitempty"` // twin steps: hold one request at a statement instead of on a link
 	Op string        `json:"op"`
 	Dt time.Duration `json:"dt,omitempty"`
 	B  string        `json:"b,omitempty"` // browser / actor
